@@ -34,12 +34,38 @@ The input hypothesis `NoNaN` is needed: with a NaN entry `Gen.single` is not a m
 (`single NaN x = x` but `single x NaN = NaN`).
 
 NOT proved here: that any algorithm of the crate returns a `GreedyValid .single` list (C03; for
-`mst` the separate Prim argument `C04_mst`); the "MST weight multiset" reading of `C04_count`
-beyond the counting statement itself.
+`mst` the separate Prim argument `C04_mst` below does NOT go through `GreedyValid`, it proves the
+threshold characterisation directly); the "MST weight multiset" reading of `C04_count` beyond the
+counting statement itself.
 Trusted: the definitions in `Spec/Naive.lean`, `Spec/WellFormed.lean` (`leaves`), `Spec/Pairs.lean`.
+
+## `mst_with` (section `mst_with` at the end of the file)
+
+For the executable model `mstWith` (Prim over the condensed matrix, then `relabel .single`), every
+valid shape `2 ≤ n < 2^31`, `2·len = n(n-1)`, both build modes, every prior state, every number type
+with `OrderLaws`, every input without NaN (`NoNaN`) for which the sentinel `T::infinity()` is not
+NaN and not strictly below an entry (`InfTop`; true of IEEE floats, ±∞ entries allowed):
+
+* `C04_mst_weights`  value invariant of the loop: the raw steps are a Hamiltonian path in the order
+        `ord` in which Prim adds the vertices; the step recorded when `ord[t+1]` is added joins
+        `ord[t]` and `ord[t+1]` and its weight is a minimum (lower bound, reached up to
+        order-equivalence at the new vertex, not NaN) of the entries crossing the cut
+        `(ord[0..t], rest)` (`PrimRun`, `IsMinCross`).
+* `C04_mst_interval` Prim interval lemma: at every level `h` the path edges of weight `≤ h` connect
+        exactly the connected components of the threshold graph (`Reach ↔ LightConn`).
+* `C04_mst_total`    under these hypotheses `mstWith` returns (the sort meets no NaN).
+* `C04_mst`          the threshold theorem for the OUTPUT: for every level `h` and observations
+        `u, v < n`, `SameCluster n d'.steps.toList h u v ↔ Reach n data h u v`.
+* `C04_mst_sorted`, `C04_mst_count`  heights are non-decreasing; the number of output steps of
+        height `≤ h` is `n −` the number of threshold components at `h` (same formulation as
+        `C04_count`): the order-theoretic "heights = MST edge-weight multiset" statement.
+* `C04_linkage_single`, `C04_linkage_single_count`  the same through `linkage_with` with
+        `Method::Single` (generated dispatch table).
 -/
 import Kodama.Lemmas.SpecSingle
 import Kodama.Lemmas.SpecDecide
+import Kodama.Lemmas.MstPrimExact
+import Kodama.Model.Linkage
 namespace Kodama
 open Spec
 variable {α : Type} [Num α]
@@ -190,5 +216,197 @@ example : ¬ Reach 4 exData 5 0 2 := by
     | k + 3, hst => simp [exSteps] at hst
 
 end NonVacuity
+
+/-! ## mst_with -/
+
+section Mst
+
+/-- **Value invariant of the Prim loop** (stage 1): on a valid NaN-free matrix `mstWith` is its
+main loop followed by `relabel .single`, and the loop leaves a Prim path: the raw steps join
+consecutive vertices of the order `ord` in which the vertices were added, with minimum crossing
+weights (`PathSteps`, `IsMinCross`). -/
+theorem C04_mst_weights (L : OrderLaws α) (chk : Bool) (st : State α) (d : Dendrogram α)
+    (data : Array α) (n : Nat) (h2 : 2 ≤ n) (hs : n < 2147483648)
+    (hl : 2 * data.size = n * (n - 1)) (hnan : NoNaN n data) (hinf : InfTop n data) :
+    ∃ st1 dend1 M1 ord, MstLoopResult n data st1 dend1 M1 ∧
+      PrimRun n data ord dend1.steps.toList ∧
+      mstWith chk st d data n =
+        (relabel .single st1.set dend1 >>= fun r => pure ({ st1 with set := r.1 }, r.2, M1)) :=
+  mstWith_prim L chk st d data n h2 hs hl hnan hinf
+
+/-- **Prim interval lemma** (stage 2): for a Prim path and every level `h`, two observations are
+connected in the threshold graph iff they are connected by path edges of weight `≤ h`. -/
+theorem C04_mst_interval (L : OrderLaws α) (n : Nat) (data : Array α) (hnan : NoNaN n data)
+    (ord : List Nat) (rs : List (Step α)) (run : PrimRun n data ord rs) (h : α) (u v : Nat)
+    (hu : u < n) (hv : v < n) : Reach n data h u v ↔ LightConn rs h u v :=
+  prim_interval L hnan run h u v hu hv
+
+/-- A successful `mstWith` is the `relabel` of a Prim path. -/
+private theorem mst_decompose (L : OrderLaws α) (chk : Bool) (st st' : State α)
+    (d d' : Dendrogram α) (data : Array α) (n : Nat) (M' : Mat α) (h2 : 2 ≤ n)
+    (hs : n < 2147483648) (hl : 2 * data.size = n * (n - 1)) (hnan : NoNaN n data)
+    (hinf : InfTop n data) (hrun : mstWith chk st d data n = .ok (st', d', M')) :
+    ∃ st1 dend1 M1 ord uf, MstLoopResult n data st1 dend1 M1 ∧
+      PrimRun n data ord dend1.steps.toList ∧ relabel .single st1.set dend1 = .ok (uf, d') := by
+  obtain ⟨st1, dend1, M1, ord, hres, hprim, heq⟩ :=
+    mstWith_prim L chk st d data n h2 hs hl hnan hinf
+  rw [heq] at hrun
+  obtain ⟨⟨uf, rel⟩, hrel, hr⟩ := bind_ok.mp hrun
+  simp only [pure_ok, Prod.mk.injEq] at hr
+  rw [hr.2.1] at hrel
+  exact ⟨st1, dend1, M1, ord, uf, hres, hprim, hrel⟩
+
+/-- Under the hypotheses of this section `mstWith` returns: the only possible panic of `relabel`,
+the NaN panic of the sort, cannot happen because every recorded weight is not NaN. -/
+theorem C04_mst_total (L : OrderLaws α) (chk : Bool) (st : State α) (d : Dendrogram α)
+    (data : Array α) (n : Nat) (h2 : 2 ≤ n) (hs : n < 2147483648)
+    (hl : 2 * data.size = n * (n - 1)) (hnan : NoNaN n data) (hinf : InfTop n data) :
+    ∃ r, mstWith chk st d data n = .ok r := by
+  obtain ⟨st1, dend1, M1, ord, hres, hprim, heq⟩ :=
+    mstWith_prim L chk st d data n h2 hs hl hnan hinf
+  have hnn : ∀ s ∈ dend1.steps.toList, Num.isNaN s.d = false := by
+    intro s hs'
+    obtain ⟨t, ht⟩ := List.mem_iff_getElem?.mp hs'
+    obtain ⟨_, _, _, _, _, mc⟩ := hprim.steps t s ht
+    exact mc.nn
+  obtain ⟨r, hr⟩ := relabel_total .single st1.set dend1 n h2 hres.obs hres.raw
+    (Or.inr (Or.inr hnn))
+  exact ⟨_, by rw [heq, hr]; rfl⟩
+
+/-- **C04 for `mst_with`** (stage 3): the partition obtained by applying all output steps of height
+`≤ h` is the partition into connected components of the threshold graph at `h`, for EVERY level
+`h` (including levels that are not heights, ±∞, NaN). -/
+theorem C04_mst (L : OrderLaws α) (chk : Bool) (st st' : State α) (d d' : Dendrogram α)
+    (data : Array α) (n : Nat) (M' : Mat α) (h2 : 2 ≤ n) (hs : n < 2147483648)
+    (hl : 2 * data.size = n * (n - 1)) (hnan : NoNaN n data) (hinf : InfTop n data)
+    (hrun : mstWith chk st d data n = .ok (st', d', M')) (h : α) (u v : Nat) (hu : u < n) :
+    SameCluster n d'.steps.toList h u v ↔ Reach n data h u v := by
+  obtain ⟨st1, dend1, M1, ord, uf, hres, hprim, hrel⟩ :=
+    mst_decompose L chk st st' d d' data n M' h2 hs hl hnan hinf hrun
+  exact (mst_exact_core L n data h2 hnan ord dend1 d' st1.set uf hres.obs hres.raw hprim hrel h).1
+    u v hu
+
+/-- Heights of the output of `mst_with` are non-decreasing (and the dendrogram is well formed:
+`C01_mst`). -/
+theorem C04_mst_sorted (L : OrderLaws α) (chk : Bool) (st st' : State α) (d d' : Dendrogram α)
+    (data : Array α) (n : Nat) (M' : Mat α) (h2 : 2 ≤ n) (hs : n < 2147483648)
+    (hl : 2 * data.size = n * (n - 1)) (hnan : NoNaN n data) (hinf : InfTop n data)
+    (hrun : mstWith chk st d data n = .ok (st', d', M')) :
+    d'.steps.toList.Pairwise (fun s t => Num.lt t.d s.d = false) := by
+  obtain ⟨st1, dend1, M1, ord, uf, hres, hprim, hrel⟩ :=
+    mst_decompose L chk st st' d d' data n M' h2 hs hl hnan hinf hrun
+  have := relabel_sorted L .single rfl dend1 d' st1.set uf hrel
+  simpa [heights, HLe, List.pairwise_map] using this
+
+/-- The number of output steps of height `≤ h` is `n` minus the number of connected components of
+the threshold graph at `h` (components counted by pairwise non-connected representatives to which
+every observation is connected) — for every `h`: the heights are, as a multiset up to
+order-equivalence, the weights of a minimum spanning tree. -/
+theorem C04_mst_count (L : OrderLaws α) (chk : Bool) (st st' : State α) (d d' : Dendrogram α)
+    (data : Array α) (n : Nat) (M' : Mat α) (h2 : 2 ≤ n) (hs : n < 2147483648)
+    (hl : 2 * data.size = n * (n - 1)) (hnan : NoNaN n data) (hinf : InfTop n data)
+    (hrun : mstWith chk st d data n = .ok (st', d', M')) (h : α) :
+    ∃ reps : List Nat,
+      (d'.steps.toList.filter (fun st => !Num.lt h st.d)).length + reps.length = n ∧
+      (∀ r ∈ reps, r < n) ∧
+      reps.Pairwise (fun r r' => ¬ Reach n data h r r') ∧
+      (∀ u, u < n → ∃ r ∈ reps, Reach n data h u r) := by
+  obtain ⟨st1, dend1, M1, ord, uf, hres, hprim, hrel⟩ :=
+    mst_decompose L chk st st' d d' data n M' h2 hs hl hnan hinf hrun
+  exact (mst_exact_core L n data h2 hnan ord dend1 d' st1.set uf hres.obs hres.raw hprim hrel h).2
+
+/-- Consequently "joined by the output steps of height `≤ h`" is an equivalence relation. -/
+theorem C04_mst_sameCluster_equiv (L : OrderLaws α) (chk : Bool) (st st' : State α)
+    (d d' : Dendrogram α) (data : Array α) (n : Nat) (M' : Mat α) (h2 : 2 ≤ n)
+    (hs : n < 2147483648) (hl : 2 * data.size = n * (n - 1)) (hnan : NoNaN n data)
+    (hinf : InfTop n data) (hrun : mstWith chk st d data n = .ok (st', d', M')) (h : α) :
+    (∀ u, SameCluster n d'.steps.toList h u u) ∧
+    (∀ u v, u < n → v < n → SameCluster n d'.steps.toList h u v →
+      SameCluster n d'.steps.toList h v u) ∧
+    (∀ u v w, u < n → v < n → SameCluster n d'.steps.toList h u v →
+      SameCluster n d'.steps.toList h v w → SameCluster n d'.steps.toList h u w) := by
+  have key := fun u v hu =>
+    C04_mst L chk st st' d d' data n M' h2 hs hl hnan hinf hrun h u v hu
+  refine ⟨fun u => Or.inl rfl, ?_, ?_⟩
+  · intro u v hu hv huv
+    exact (key v u hv).2 ((key u v hu).1 huv).symm
+  · intro u v w hu hv huv hvw
+    exact (key u w hu).2 (((key u v hu).1 huv).trans ((key v w hv).1 hvw))
+
+/-- `linkage_with` with `Method::Single` is `mst_with` (generated dispatch table). -/
+theorem linkage_single_eq (chk : Bool) (st : State α) (d : Dendrogram α) (data : Array α)
+    (n : Nat) : linkageWith chk .single st d data n = mstWith chk st d data n := by
+  unfold linkageWith; simp [dispatch]
+
+/-- **C04 through `linkage_with(.., Method::Single, ..)`.** -/
+theorem C04_linkage_single (L : OrderLaws α) (chk : Bool) (st st' : State α) (d d' : Dendrogram α)
+    (data : Array α) (n : Nat) (M' : Mat α) (h2 : 2 ≤ n) (hs : n < 2147483648)
+    (hl : 2 * data.size = n * (n - 1)) (hnan : NoNaN n data) (hinf : InfTop n data)
+    (hrun : linkageWith chk .single st d data n = .ok (st', d', M')) (h : α) (u v : Nat)
+    (hu : u < n) : SameCluster n d'.steps.toList h u v ↔ Reach n data h u v := by
+  rw [linkage_single_eq] at hrun
+  exact C04_mst L chk st st' d d' data n M' h2 hs hl hnan hinf hrun h u v hu
+
+theorem C04_linkage_single_count (L : OrderLaws α) (chk : Bool) (st st' : State α)
+    (d d' : Dendrogram α) (data : Array α) (n : Nat) (M' : Mat α) (h2 : 2 ≤ n)
+    (hs : n < 2147483648) (hl : 2 * data.size = n * (n - 1)) (hnan : NoNaN n data)
+    (hinf : InfTop n data) (hrun : linkageWith chk .single st d data n = .ok (st', d', M'))
+    (h : α) :
+    d'.steps.toList.Pairwise (fun s t => Num.lt t.d s.d = false) ∧
+    ∃ reps : List Nat,
+      (d'.steps.toList.filter (fun st => !Num.lt h st.d)).length + reps.length = n ∧
+      (∀ r ∈ reps, r < n) ∧
+      reps.Pairwise (fun r r' => ¬ Reach n data h r r') ∧
+      (∀ u, u < n → ∃ r ∈ reps, Reach n data h u r) := by
+  rw [linkage_single_eq] at hrun
+  exact ⟨C04_mst_sorted L chk st st' d d' data n M' h2 hs hl hnan hinf hrun,
+    C04_mst_count L chk st st' d d' data n M' h2 hs hl hnan hinf hrun h⟩
+
+/-! ### Non-vacuity for `mst_with` (the 4-observation matrix of the previous section) -/
+
+section NonVacuityMst
+attribute [local instance] Toy.natNum
+
+private def exData' : Array Nat := #[5, 9, 7, 8, 6, 1]
+
+private theorem exNoNaN' : NoNaN 4 exData' := fun _ _ _ _ _ => rfl
+
+private theorem exInfTop' : InfTop 4 exData' := by
+  refine ⟨rfl, ?_⟩
+  have : ∀ u, u < 4 → ∀ v, v < 4 → u ≠ v →
+      Num.lt (Num.infinity : Nat) (entry 4 exData' Num.infinity u v) = false := by decide
+  intro u v hu hv huv
+  exact this u hu v hv huv
+
+/-- All hypotheses of the section are satisfiable together (toy numbers, 4 observations), the run
+returns, and the conclusion holds for it: at level 5 observations 0 and 1 are joined by the output
+steps, 0 and 2 are not. -/
+example : OrderLaws Nat ∧ NoNaN 4 exData' ∧ InfTop 4 exData' ∧
+    ∃ st' d' M', mstWith true State.new (Dendrogram.new 4) exData' 4 = .ok (st', d', M') ∧
+      SameCluster 4 d'.steps.toList 5 0 1 ∧ ¬ SameCluster 4 d'.steps.toList 5 0 2 := by
+  refine ⟨Toy.natOrderLaws, exNoNaN', exInfTop', ?_⟩
+  obtain ⟨⟨st', d', M'⟩, hr⟩ := C04_mst_total Toy.natOrderLaws true State.new (Dendrogram.new 4)
+    exData' 4 (by decide) (by decide) (by decide) exNoNaN' exInfTop'
+  have key := fun u v hu => C04_mst Toy.natOrderLaws true State.new st' (Dendrogram.new 4) d'
+    exData' 4 M' (by decide) (by decide) (by decide) exNoNaN' exInfTop' hr 5 u v hu
+  refine ⟨st', d', M', hr, (key 0 1 (by decide)).2 ?_, fun hsc => ?_⟩
+  · exact Relation.ReflTransGen.single ⟨by decide, by decide, by decide, by decide⟩
+  · have hreach := (key 0 2 (by decide)).1 hsc
+    -- at level 5 the threshold graph has the edges 0–1 and 2–3 only
+    have inv : ∀ x, Reach 4 exData' 5 0 x → x = 0 ∨ x = 1 := by
+      intro x hx
+      induction hx with
+      | refl => exact Or.inl rfl
+      | @tail y z _ h2 ih =>
+        obtain ⟨hy, hz, hne, hle⟩ := h2
+        have hall : ∀ y, y < 4 → ∀ z, z < 4 → (y = 0 ∨ y = 1) →
+            Num.lt (5 : Nat) (entry 4 exData' Num.infinity y z) = false → (z = 0 ∨ z = 1) := by
+          decide
+        exact hall y hy z hz ih hle
+    rcases inv 2 hreach with h | h <;> cases h
+
+end NonVacuityMst
+
+end Mst
 
 end Kodama
